@@ -249,15 +249,22 @@ class RealBinary:
             kind = "rejected" if (err.strip() or o.strip()) else "rejected-silently"
         else:
             kind = "exit%d" % p.returncode
-        return dict(kind=kind, rc=p.returncode, err=err[-1500:])
+        return dict(kind=kind, rc=p.returncode, err=err[:6000] if kind == "sanitizer" else err[-1500:])
 
 
-def san_site(err):
-    """first frames of a sanitizer report that name functions of the tree: the call site a finding is matched on"""
-    fr = re.findall(r"#\d+ 0x[0-9a-f]+ in (\w+)", err)
-    fr = [f for f in fr if not f.startswith(("__", "_start")) and f not in ("main", "malloc", "free", "realloc", "calloc", "strdup")]
+def san_site(err, tree):
+    """(report kind, first frames that name functions of the tree, text of the source line of the first frame):
+    the call site a finding is matched on (line numbers move, the line's text does not)"""
+    fr = re.findall(r"#\d+ 0x[0-9a-f]+ in (\w+) (\S+?):(\d+)", err)
+    fr = [f for f in fr if f[1].startswith("src/")]
     m = re.search(r"ERROR: AddressSanitizer: ([\w-]+)", err) or re.search(r"runtime error: ([^\n]{0,60})", err)
-    return (m.group(1) if m else "?"), fr[:3]
+    text = ""
+    if fr:
+        try:
+            text = open(os.path.join(tree, fr[0][1])).read().split("\n")[int(fr[0][2]) - 1].strip()
+        except (OSError, IndexError):
+            pass
+    return (m.group(1) if m else "?"), [f[0] for f in fr[:3]], text
 
 
 # ------------------------------------------------------------------------------------------- main entry
@@ -355,8 +362,9 @@ def run(ctx):
                 continue
             if kind == "HANG" and mt.get("loop") == loop:
                 return f
-            if kind in ("SANITIZER", "CRASH") and site and mt.get("function") in site[1] and \
-                    (not mt.get("report") or mt.get("report") == site[0]):
+            if kind in ("SANITIZER", "CRASH") and site and mt.get("function") in site[1][:1] and \
+                    (not mt.get("report") or mt.get("report") == site[0]) and \
+                    (not mt.get("line_text") or mt.get("line_text") == site[2]):
                 return f
         return None
 
@@ -394,14 +402,14 @@ def run(ctx):
             for i in idxs[:25]:
                 c = real.run(items[i][0], sanitize=True, limit_s=60)
                 if c["kind"] in ("sanitizer", "signal"):
-                    site = san_site(c["err"])
+                    site = san_site(c["err"], asan_tree)
                     f = match_finding("SANITIZER" if c["kind"] == "sanitizer" else "CRASH", site=site)
                     if f:
                         known_counts[f["id"]] = known_counts.get(f["id"], 0) + 1
                         ctx.known(f["id"], "%s %s in %s on %r" % (c["kind"], site[0], "/".join(site[1]), items[i][2]))
                     else:
-                        violation("the front end %s (%s in %s, phase %s)" % (
-                            "trips a sanitizer" if c["kind"] == "sanitizer" else "dies from a signal", site[0], "/".join(site[1]), phase),
+                        violation("the front end %s (%s in %s at `%s`, phase %s)" % (
+                            "trips a sanitizer" if c["kind"] == "sanitizer" else "dies from a signal", site[0], "/".join(site[1]), site[2], phase),
                             items[i][0], items[i][2], extra=c["err"])
                 elif c["kind"] == "timeout":
                     violation("the front end does not finish within 60 s", items[i][0], items[i][2])
